@@ -192,6 +192,16 @@ def check_case(case):
                 ok = np.array_equal(got, want)
             if not ok:
                 viols.append(('value:%s' % sq, '%s mode=%s squash=%r: got %s expected %s' % (describe(case), mode, sq, got.tolist(), want.tolist())))
+    # `mode` and `squash_time` omitted: the documented defaults are 'energy' and time-summed ('sum')
+    if not viols and (sum(case[4]) + sum(case[5])) % 4 == 0:
+        try:
+            d0 = np.asarray(holospectrum(infr.copy(), infr2.copy(), amp.copy(), e1.copy(), e2.copy()))
+            want0 = brute(e1, e2, infr, infr2, amp, 'energy').sum(axis=0)
+            trans += 1
+            if d0.shape != want0.shape or not np.array_equal(d0, want0):
+                viols.append(('defaults', '%s: with mode / squash_time omitted the result is not the time-summed energy holospectrum' % describe(case)))
+        except Exception as ex:
+            viols.append(('raise:defaults:%s' % type(ex).__name__, '%s with defaults raised %r' % (describe(case), ex)))
     # the same values in another memory layout (Fortran order / a moved-axis view) must give the same spectrum
     if T * M * K >= 2 and not viols:
         views = [('fortran', np.asfortranarray(infr), np.asfortranarray(infr2), np.asfortranarray(amp)),
